@@ -7,13 +7,16 @@ for m in sorted(glob.glob('/verif/seeded/*/meta.json')):
     tgt = d['breaks_property']
     caught = d.get('caught_by', [])
     others = [c for c in caught if c != tgt]
-    rows.append((d['id'], tgt, d['change'].replace('|', '/'), 'yes' if tgt in caught else '**NO**', ' '.join(others) or '-'))
+    own = 'yes' if tgt in caught else '**NO**'
+    if d.get('out_of_domain'):
+        own = 'n/a (outside the domain)'
+    rows.append((d['id'], tgt, d['change'].replace('|', '/'), own, ' '.join(others) or '-'))
 out = ["| seed | breaks | change (one line) | caught by its own check | also caught by |", "|---|---|---|---|---|"]
 for r in rows:
     ch = r[2] if len(r[2]) < 170 else r[2][:167] + '...'
     out.append(f"| {r[0]} | {r[1]} | {ch} | {r[3]} | {r[4]} |")
 out.append("")
-out.append(f"{len(rows)} seeded changes; {sum(1 for r in rows if r[3]=='yes')} caught by the check of the property they were written against.")
+out.append(f"{len(rows)} seeded changes; {sum(1 for r in rows if r[3]=='yes')} caught by the check of the property they were written against, {sum(1 for r in rows if r[3].startswith('n/a'))} outside the properties' domain, {sum(1 for r in rows if r[3]=='**NO**')} missed.")
 text = "\n".join(out)
 import sys
 if len(sys.argv) > 1 and sys.argv[1] == "--update-design":
